@@ -1017,6 +1017,19 @@ impl CompositionGraph {
             }
         }
 
+        // Arguments satisfied by this node become unsatisfied again
+        let satisfied = self
+            .graph
+            .edges_directed(node.0, Direction::Outgoing)
+            .filter_map(|e| match e.weight() {
+                Edge::Argument(i) => Some((e.target(), *i)),
+                Edge::Alias(_) | Edge::Dependency => None,
+            })
+            .collect::<Vec<_>>();
+        for (target, index) in satisfied {
+            self.graph[target].remove_satisfied_arg(index);
+        }
+
         // Remove the node from the graph
         log::debug!(
             "removing node {index} from the graph",
